@@ -145,6 +145,18 @@ impl SkimItemReader {
     }
 }
 
+/// Remove the line terminator from the end of `buffer`: the configured `line_ending` byte and,
+/// for newline-terminated input, a CR directly before it (CRLF). Nothing else is removed, so an
+/// unterminated last line keeps a trailing byte that merely looks like another mode's terminator.
+fn strip_line_ending(buffer: &mut Vec<u8>, line_ending: u8) {
+    if buffer.last() == Some(&line_ending) {
+        buffer.pop();
+        if line_ending == b'\n' && buffer.last() == Some(&b'\r') {
+            buffer.pop();
+        }
+    }
+}
+
 impl SkimItemReader {
     pub fn of_bufread(&self, source: impl BufRead + Send + 'static) -> SkimItemReceiver {
         if self.option.is_simple() {
@@ -170,12 +182,7 @@ impl SkimItemReader {
                             break;
                         }
 
-                        if buffer.ends_with(&[b'\r', b'\n']) {
-                            buffer.pop();
-                            buffer.pop();
-                        } else if buffer.ends_with(&[b'\n']) || buffer.ends_with(&[b'\0']) {
-                            buffer.pop();
-                        }
+                        strip_line_ending(&mut buffer, line_ending);
 
                         let string = String::from_utf8_lossy(&buffer);
                         let result = tx_item.send(Arc::new(string.into_owned()));
@@ -264,12 +271,7 @@ impl SkimItemReader {
                             break;
                         }
 
-                        if buffer.ends_with(&[b'\r', b'\n']) {
-                            buffer.pop();
-                            buffer.pop();
-                        } else if buffer.ends_with(&[b'\n']) || buffer.ends_with(&[b'\0']) {
-                            buffer.pop();
-                        }
+                        strip_line_ending(&mut buffer, option.line_ending);
 
                         let line = String::from_utf8_lossy(&buffer).to_string();
 
